@@ -397,3 +397,13 @@ Definition wf_raw_b (p : pprofile) : bool :=
   forallb (fun l => (Z.eqb (l_map l) 0 || has_id m_id (p_maps p) (l_map l)) &&
                     forallb (fun ln => has_id f_id (p_funs p) (ln_fn ln)) (l_lines l)) (p_locs p) &&
   forallb (fun s => Nat.eqb (length (s_vals s)) (length (p_types p)) && forallb (has_id l_id (p_locs p)) (s_locs s)) (p_samps p).
+
+(* [closed]: what the merged message must be for ANY payloads (round 8, proofs/ProfSaneProofs.v merged_profile_closed): ids of
+   functions and locations 1..n in order, the string indices of the functions inside the string table, every function id of a
+   line and every location id of a sample names an existing element, every sample has n values *)
+Definition closed_b (n : nat) (p : pprofile) : bool :=
+  let ns := length (p_strs p) in
+  positional f_id (p_funs p) 1 && positional l_id (p_locs p) 1 &&
+  forallb (fun f => in_range ns (f_name f) && in_range ns (f_sys f) && in_range ns (f_file f)) (p_funs p) &&
+  forallb (fun l => forallb (fun ln => id_in (length (p_funs p)) (ln_fn ln)) (l_lines l)) (p_locs p) &&
+  forallb (fun s => Nat.eqb (length (s_vals s)) n && forallb (id_in (length (p_locs p))) (s_locs s)) (p_samps p).
